@@ -42,6 +42,9 @@ class MPBFloatFormat_to_ordinal(Contract):
         return {
             # B5: the ordinal of a finite member is its ordinal in the unbounded format
             'B5_ord': implies(fl_finite(x), result == mps_ord(self._mps_fmt, x._real)),
+            # B5 (contiguous range): the ordinals of the finite members lie in [ord(neg_maxval), ord(pos_maxval)]
+            # (needs: the MPS ordinal is monotone on arbitrary, not only canonical, representations)
+            'B5_range': implies(fl_finite(x), self._neg_maxval_ord <= result and result <= self._pos_maxval_ord),
             # with infval: the infinities sit one step beyond the extreme ordinals
             'pos_inf': implies(x._isinf and not x._real._s, result == self._pos_maxval_ord + 1),
             'neg_inf': implies(x._isinf and x._real._s, result == self._neg_maxval_ord - 1),
